@@ -37,6 +37,9 @@ T = {
  "C05": ("bounded-progress monitor on recorded error trajectories of the real filters (per-configuration step bound N and tolerance from gain/geometry)",
          "Runtime monitoring: each recursive filter configuration (Madgwick, Mahony, EKF NED/ENU, UKF, AQUA incl. adaptive, ROLEQ NED/ENU, FKF, Complementary; IMU and MARG; default and non-default gains) is started 0.01-175 deg away from a random true attitude and fed exact measurements plus gyro noise; the error trajectory (geodesic angle or tilt) must be below tol at sample N, stay below it to 1.5 N and never end above the initial error. 'Eventually' is restated as this bounded progress; verdicts are in samples, never wall-clock.",
          "NumPy; frozen (N, tol) table with x2 / x5 margins over the calibrated envelope; direction table of vt/filt.py; UKF non-convergence is a known finding", "5/C05"),
+ "C06": ("history checkers (batch vs stream, repeat, fresh process, per-instance sub-histories under random interleavings) + shared-state snapshot monitor",
+         "Runtime monitoring: for every recursive filter and architecture (16 streaming configurations incl. EKF with magnetometer and UKF, default and explicit parameters) a random history is run through the constructor and through update() sample by sample from the same initial attitude (equal to 1e-13), each repeated (bit-identical), some in a fresh interpreter with another hash seed; 2-4 instances of same/different classes are driven under random schedules and each instance's sub-history must be bit-identical to its isolated run; module globals, class attributes, function defaults and the global NumPy RNG are snapshotted around every case.",
+         "NumPy; histories up to 60 samples; the only permitted shared-state write is RNG consumption by OLEQ/ROLEQ's random start", "5/C06"),
 }
 
 def main():
